@@ -1,14 +1,24 @@
 (* C21 obligations over the parameters re-extracted from the current Go source
-   (ArcGen.Params_TokenCache, regenerated on every run by tools/props/C21.py). *)
+   (ArcGen.Params_TokenCache, regenerated on every run by tools/props/C21.py).  These are the
+   PRIMARY statements: the theorems of Props.v instantiated with what the code is now. *)
 From Coq Require Import List ZArith NArith Bool String Lia.
 From Arc Require Import Lib.AList TokenCache.Interleave TokenCache.Model TokenCache.Proofs.
 From ArcGen Require Import Params_TokenCache.
 Import ListNotations.
 Open Scope Z_scope.
 
-(* NewAuthManager still limits the auth database to one pooled connection - the hypothesis
-   under which the insert race is excluded (C21_pool2_stale_refuted shows it is needed). *)
+(* NewAuthManager still limits the auth database to one pooled connection, and VerifyToken
+   still keeps its query's rows open until it returns - the two facts under which the insert
+   race is excluded (C21_pool2_stale_refuted shows the first is needed; the model's V2/V3
+   steps are the second). *)
 Theorem C21_deployed_single_connection : db_max_open_conns = 1%nat.
+Proof. reflexivity. Qed.
+
+Theorem C21_deployed_keeps_connection : verify_keeps_rows_open = true.
+Proof. reflexivity. Qed.
+
+(* the cache entry's expiry is clamped to the token's own expiry (since 7177f8c) *)
+Theorem C21_deployed_clamped : cache_expiry_clamped = true.
 Proof. reflexivity. Qed.
 
 (* every function that updates or deletes api_tokens rows invalidates the token cache *)
@@ -27,18 +37,20 @@ Proof.
   exact (revoked_rejected c d t0 s ts i v now0 minv res dm Hp).
 Qed.
 
-(* what the deployed cache-expiry expression guarantees about expired tokens *)
-Theorem C21_deployed_expiry :
+(* a token authenticates only if it was issued, is enabled and has not expired: every
+   successful verification returns an enabled row of a table version inside its window,
+   and that row was unexpired at the verification's time *)
+Theorem C21_deployed_unexpired :
   forall c d t0 s ts i v now0 minv inf w,
   c_pool c = db_max_open_conns -> c_clamp c = cache_expiry_clamped ->
   reach (step c) env (spawnable (fun _ => True)) (init_st c d t0, []) (s, ts) ->
   nth_error ts i = Some (VDone v now0 minv (Some (inf, w))) ->
+  (minv <= w <= cur s)%nat /\
   exists dw r, db_at s w = Some dw /\ find_row dw v = Some r /\ inf = info_of r /\
-    forall x, r_exp r = Some x ->
-      if cache_expiry_clamped then now0 <= x else (now0 <= x \/ now0 < x + c_ttl c).
+    forall x, r_exp r = Some x -> now0 <= x.
 Proof.
   intros c d t0 s ts i v now0 minv inf w Hp Hcl Hr Hi. rewrite C21_deployed_single_connection in Hp.
-  destruct (no_stale c _ d t0 s ts i v now0 minv inf w Hp Hr Hi) as [_ (dw & r & H1 & H2 & H3 & H4)].
-  exists dw, r. repeat split; auto. intros x Hx. destruct (H4 x Hx) as [Ha Hb].
-  destruct cache_expiry_clamped; [apply Hb; exact Hcl|exact Ha].
+  rewrite C21_deployed_clamped in Hcl.
+  destruct (no_stale c _ d t0 s ts i v now0 minv inf w Hp Hr Hi) as [Hw (dw & r & H1 & H2 & H3 & H4)].
+  split; [exact Hw|]. exists dw, r. repeat split; auto. intros x Hx. exact (proj2 (H4 x Hx) Hcl).
 Qed.
